@@ -483,7 +483,7 @@ def escaper_table(loop_body, var_pat, reps, fixed_inputs=None):
     return out
 
 
-def escaper_spec(fn_body, str_param, kind):
+def escaper_spec(fn_body, str_param, kind, fn=None):
     """Check an escaping function against the *specification* of its target syntax, for every distinguishable class
     of characters: (ok, [problems], facts). kind: 'json' (a JSON string) or 'js-in-script' (a JS string literal inside
     an HTML <script> element). The function must write `"`, then for every character of the string - in order - a text
@@ -491,6 +491,62 @@ def escaper_spec(fn_body, str_param, kind):
     import json as _json
     from astlib import walk, show
     problems = []
+    if fn is not None:
+        # the whole function interpreted (rules/absint.py, helpers included) on one-character strings for every representative
+        # character and on `a<ch>z` (order, framing): however the loop is written, what is written must be `"` + a fragment that
+        # decodes to exactly the string + `"`
+        try:
+            from rules import absint as _absint
+            reps = char_classes(fn_body)
+            params = fn.params()
+            tab = {}
+            bad = {}
+            for cp in reps:
+                for text_in in (chr(cp), "a" + chr(cp) + "z"):
+                    ev = _absint.AEval(funcs={})
+                    argv = []
+                    sink = None
+                    for pn in params:
+                        if pn == str_param:
+                            argv.append(("str", text_in))
+                        elif sink is None:
+                            sink = pn
+                            argv.append(("str", "") if kind == "js-in-script" else _absint.A("formatter"))
+                        else:
+                            argv.append(_absint.A(pn))
+                    got = ev.run_fn(fn, argv)
+                    if isinstance(got, str):
+                        raise _absint.Unknown(got)
+                    written = render(ev.out)
+                    after = (getattr(ev, "last_env", None) or {}).get(sink)
+                    if after is not None and after[0] == "str":
+                        written = after[1] + written
+                    if len(text_in) == 1:
+                        tab[cp] = written[1:-1] if len(written) >= 2 else written
+                    why = None
+                    if not (len(written) >= 2 and written[0] == '"' and written[-1] == '"'):
+                        why = "is written as %r: not framed by a pair of double quotes" % written
+                    else:
+                        try:
+                            dec = _json.loads(written)
+                            if dec != text_in:
+                                why = "decodes to %r" % dec
+                        except Exception:
+                            why = "is not a valid string literal (%r)" % written
+                        if why is None and kind == "js-in-script":
+                            if "<" in written:
+                                why = "leaves `<` raw: `</script>` / `<!--` inside a translation would end or comment out the element"
+                            elif "\u2028" in written or "\u2029" in written:
+                                why = "leaves a JS line terminator raw"
+                    if why and cp not in bad:
+                        bad[cp] = "U+%04X (in %r) %s" % (cp, text_in, why)
+            for cp, why in sorted(bad.items()):
+                problems.append(why)
+            return not problems, problems, {"classes": len(reps), "sample": {("U+%04X" % k): v for k, v in list(tab.items())[:12]}, "mode": "whole function"}
+        except Exception as e:  # noqa: BLE001 - fall back to the per-loop analysis below
+            if not isinstance(e, Unknown) and e.__class__.__name__ != "Unknown":
+                raise
+            problems = []
     loops = []
     for n in walk(fn_body):
         if n["k"] == "ForLoop":
